@@ -45,8 +45,14 @@ func (i w4MapIn) String() string {
 	case "getorcreate":
 		return fmt.Sprintf("getOrCreate(metric=%q key=%q)", i.Metric, i.Key)
 	case "put":
+		if len(i.Keys) > 20 {
+			return fmt.Sprintf("put(%d keys %s..%s = ids %d..%d)", len(i.Keys), i.Keys[0], i.Keys[len(i.Keys)-1], i.Vals[0], i.Vals[len(i.Vals)-1])
+		}
 		return fmt.Sprintf("put(%v=%v)", i.Keys, i.Vals)
 	case "delete":
+		if len(i.IDs) > 20 {
+			return fmt.Sprintf("delete(%d ids %d..%d)", len(i.IDs), i.IDs[0], i.IDs[len(i.IDs)-1])
+		}
 		return fmt.Sprintf("delete(%v)", i.IDs)
 	case "reset":
 		return fmt.Sprintf("resetFlood(metric=%q limit=%d)", i.Metric, i.Limit)
@@ -101,6 +107,12 @@ type w4MapModel struct {
 	focusKey            int
 	focus               bool            // flood-focused run: one metric, mostly creations
 	dirtyByReset        map[string]bool // metric -> budget was reset and no mapping created since
+
+	// bulk runs: one PutMapping call of 501-999 fresh keys (ids from 1000), later one deletion call that
+	// names all (or nearly all) of them: the largest call the deletion API takes, replayed as one event
+	bulk        bool
+	bulkIDs     []int32
+	bulkDeleted bool
 }
 
 func newW4MapModel(opt Options) *w4MapModel {
@@ -113,6 +125,23 @@ var w4Metrics = []string{"mm0", "mm1", "mm2"}
 
 func (m *w4MapModel) gen(c *verifsim.Choices) w4MapIn {
 	key := func() string { return fmt.Sprintf("k%d", c.Intn(12, "key")) }
+	if m.bulk && m.bulkIDs == nil && c.Intn(3, "bulk_put") == 0 {
+		n := 501 + c.Intn(499, "bulk_n")
+		in := w4MapIn{Kind: "put"}
+		for i := 0; i < n; i++ {
+			in.Keys = append(in.Keys, fmt.Sprintf("b%d", i))
+			in.Vals = append(in.Vals, int32(1000+i))
+		}
+		m.bulkIDs = in.Vals
+		return in
+	}
+	if m.bulk && m.bulkIDs != nil && !m.bulkDeleted && c.Intn(3, "bulk_delete") == 0 {
+		m.bulkDeleted = true
+		in := w4MapIn{Kind: "delete"}
+		skip := c.Intn(4, "bulk_keep") // 0: every id of the bulk, else: the last 1-3 stay
+		in.IDs = append(in.IDs, m.bulkIDs[:len(m.bulkIDs)-skip]...)
+		return in
+	}
 	if m.focus && m.allowResets && c.Intn(10, "ff_reset") == 0 {
 		// flood-focused runs with resets: the one busy metric is reset to a small value now and then
 		return w4MapIn{Kind: "reset", Metric: w4Metrics[0], Limit: int64(1 + c.Intn(3, "ff_resetlimit"))}
@@ -339,7 +368,15 @@ func (w *w4World) checkMaps() {
 						if ms.hasReset && ms.resetLimited && ms.resetValue <= m.opt.MaxBudget {
 							// a reset to a value below the maximum: what the metric can have at creation i is that
 							// value plus the bonus of the steps since the reset, capped by the maximum
-							b = ms.resetValue + m.opt.BudgetBonus*w4Steps(ms.resetAt, ms.creations[i].at, m.opt.StepSec)
+							// (steps up to the latest instant seen since the reset: the bucket's time mark never moves
+							// back, so bonus earned by an earlier creation while the clock was ahead stays)
+							seen := ms.resetAt
+							for j := 0; j <= i; j++ {
+								if ms.creations[j].at > seen {
+									seen = ms.creations[j].at
+								}
+							}
+							b = ms.resetValue + m.opt.BudgetBonus*w4Steps(ms.resetAt, seen, m.opt.StepSec)
 							if b > m.opt.MaxBudget {
 								b = m.opt.MaxBudget
 							}
